@@ -4,6 +4,16 @@ import json, os, subprocess
 HERE = os.path.dirname(os.path.dirname(os.path.abspath(__file__)))
 
 CHECKS = {
+ 'C12': dict(
+    category='fault_enumeration', design_ref='4/C12',
+    technique='fault enumeration (kind x ending x value/exception class x first accessor x kill signal x kill phase) with a consistency-table oracle over all seven accessors, each call under the bounded-progress watchdog; targeted delay on the first line of Thread.run',
+    text='Thread and Process targets end by returning 7 value classes (incl. 1 MB), raising 16 exception classes (multi-argument, keyword-only, custom __reduce__, BaseException), sys.exit(None|0|1|3|"bye"), terminate(), or (process) being killed by TERM/KILL/SEGV/ABRT/INT before the target, during it, or after the result was sent; the first accessor is called right after start(). join/result/exception/done/exitcode/wait/as_completed must all return within the bound and agree per the table; exceptions keep type, args and the raising line in the traceback text.',
+    note='Trusted: the consistency table of DESIGN C12 (SIGTERM = terminate(); kill after the result was sent keeps the result); expected exception type/args are what constructing the exception gives in this interpreter.'),
+ 'C20': dict(
+    category='fault_enumeration', design_ref='4/C20',
+    technique='fault enumeration (record count x size x ending x timing of last record x parent level x carrier) with a sequence-number oracle at the parent root handler and the bounded-progress watchdog on join/result/exit',
+    text='Children started through mpservice Process (directly, as ProcessServlet workers logging in cleanup, as ProcessPoolExecutor tasks) emit 0 to 20 000 numbered records of 10 B to 70 kB, also from 4 threads, and end by return / raise / sys.exit with the last record immediately before the end; the parent handler must see exactly the emitted sequence filtered by its level, once, in order, and result()/server exit/pool shutdown must return.',
+    note='Trusted: after join() the check waits up to 10 s for the count or until the per-process logger thread has ended.'),
  'C11': dict(
     category='fault_enumeration', design_ref='4/C11, 3.1, 3.5',
     technique='fault enumeration over (tree, failing leaf, failing worker index) and (tree, prior workload, enter/exit cycle) with bounded-progress watchdog (bound + stable stacks) and thread/child-process census against a baseline; second-order history (failed enter -> new server) under swept GC thresholds',
